@@ -58,6 +58,10 @@ def text_strategy(cr=True, min_size=1, max_size=8, extra=()):
 def names(draw, prefixes=()):
     n = draw(st.sampled_from(NAME_START)) + "".join(
         draw(st.lists(st.sampled_from(NAME_REST), max_size=4)))
+    if draw(st.integers(0, 7)) == 0:
+        # letters that name white-space escapes (a regex written with
+        # doubled backslashes takes them for white space)
+        n = draw(st.sampled_from(["n", "t", "r", "nt", "rn", "tt", "s", "w"]))
     # a name ending in '-' or '.' is fine; avoid accidental 'xml' start
     if n.lower().startswith("xml"):
         n = "q" + n
